@@ -7,6 +7,11 @@
    (Gorishny-Larin 1986; Larin-Vermaseren 1991)
  => first moments of c_{3,ns}^{(k)} and of the 2x g1 non-singlet coefficient:
    k=1: -3 CF = -4,   k=2: -16 (55/12 - nf/3),   k=3: -64 [ ... ]
+ GLS beyond Bjorken: the light-by-light ("fl02", valence) term, first at a^3 (Larin-Vermaseren 1991):
+   + nf (d^{abc} d^{abc} / n_c) (zeta3/8 - 11/192) a^3,   d^{abc} d^{abc} / n_c = 40/9
+   (numerically 0.4132 nf: the GLS a^3 coefficient is -41.44 + 8.02 nf - 0.177 nf^2, the Bjorken one
+   -41.44 + 7.607 nf - 0.177 nf^2)  =>  first moment of the valence coefficient c_{3,v}^{(3)}: +64 nf (40/9)(zeta3/8 - 11/192);
+   no such term at lower orders.
 """
 import mpmath as mp
 
@@ -28,3 +33,12 @@ def bjorken(order, nf):
         c = mp.mpf(13841) / 216 + mp.mpf(44) / 9 * ZETA3 - mp.mpf(55) / 2 * ZETA5 - nf * (mp.mpf(10339) / 1296 + mp.mpf(61) / 54 * ZETA3 - mp.mpf(5) / 3 * ZETA5) + mp.mpf(115) / 648 * nf**2
         return -64 * c
     raise ValueError(order)
+
+
+def gls_valence(order, nf):
+    if order < 3:
+        return mp.mpf(0)
+    if order == 3:
+        return 64 * mp.mpf(nf) * mp.mpf(40) / 9 * (ZETA3 / 8 - mp.mpf(11) / 192)
+    raise ValueError(order)
+
